@@ -25,8 +25,15 @@
       (`max_depth_on_scheduled_circuit`), the literal recursion terminating with the model's fuel;
     * hence `CircuitMaxEmitResetDepth` and `CircuitMaxEmitEffDepth` equal their op-list definitions
       (`emitter_reset_and_effective_depth_eq_spec`; no `_statement` is left unproved in this file).
+  §6–§7, for EVERY circuit satisfying DagInv, hence for every circuit reachable by any edit history (not only `add`):
+    * every topological order of the circuit is a schedule (operations as wired: `insert_at` does not thread classical registers)
+      and one exists (`every_topological_order_is_a_schedule`, `every_circuit_has_a_schedule`);
+    * all metrics equal their specification on the operation list of ANY schedule (`metrics_eq_spec_on_any_schedule`,
+      `metrics_eq_spec_in_any_topological_order`), the specification not depending on the schedule;
+    * `metrics_after_history`: after any history over the whole edit API from `CircuitDAG(ne,np,nc)` (graphiq-constructed
+      operation arguments) — the `add`-built theorems are the special case `built_circuit_meets_spec`.
 -/
-import GraphiqModel.Proofs.MetricsHistDepth
+import GraphiqModel.Proofs.MetricsHistCheck
 import GraphiqModel.Properties.C12
 namespace Graphiq.C18
 open Graphiq Graphiq.Dag Graphiq.Metrics
@@ -455,5 +462,84 @@ example : ∃ (c : Dag) (P : Reg → List NodeId) (L : List (NodeId × Op)), Goo
     · exact oneQubit_wf rfl (by decide)
     · exact cnotEE_wf) (by decide)
   exact ⟨_, P, L, g, hS, by rw [← List.length_map (f := (·.2)), hL]; rfl⟩
+
+/-! ### a circuit reached by an edit history: add, insert_at (two edges, classical register left unthreaded), insert_at in
+    the middle of a wire, remove_op, unwrap_nodes -/
+
+def phE0 : Op := Op.oneQubit .phase ⟨.e, 0⟩
+
+/-- `CNOT e0→e1; H p0;` insert `MCR e1→p0 (c0)` before both outputs; `W[H,I,P] e1;` insert `P e0` before the CNOT; remove `H p0`;
+    unwrap -/
+def hist : List C12.Edit :=
+  [.add cnotEE, .add hP0,
+   .insertAt mcr [⟨.op 1, .out ⟨.e, 1⟩, ⟨.e, 1⟩⟩, ⟨.op 2, .out ⟨.p, 0⟩, ⟨.p, 0⟩⟩],
+   .add wrapE1,
+   .insertAt phE0 [⟨.inp ⟨.e, 0⟩, .op 1, ⟨.e, 0⟩⟩],
+   .removeOp 2,
+   .unwrapNodes]
+
+theorem gCnot : GraphiqOp cnotEE := ⟨cnotEE_wf, ⟨⟨by decide, by decide⟩, by decide⟩, fun h => absurd h (by decide)⟩
+theorem gMcr : GraphiqOp mcr := ⟨mcr_wf, ⟨⟨by decide, by decide⟩, by decide⟩, fun h => absurd h (by decide)⟩
+theorem gWrap : GraphiqOp wrapE1 := ⟨wrapE1_wf, ⟨⟨by decide, by decide⟩, by decide⟩, fun _ => ⟨⟨_, rfl⟩, rfl⟩⟩
+
+/-- the history satisfies the hypothesis of `metrics_after_history` (the two-edge insertion is on the two edges into output
+    nodes, which are sinks: no path from one edge's target to the other's source) -/
+theorem hist_ok : C12.HistOKg (Dag.init 2 1 1) hist := by
+  have gH : GraphiqOp hP0 := graphiqOp_oneQubit rfl (by decide)
+  have gP : GraphiqOp phE0 := graphiqOp_oneQubit rfl (by decide)
+  have h2 : DagInv (C12.run (Dag.init 2 1 1) [.add cnotEE, .add hP0]) :=
+    C12.history_from_init 2 1 1 _ ⟨cnotEE_wf, gH.wf, trivial⟩
+  obtain ⟨P2, g2⟩ := h2
+  refine ⟨gCnot, gH, ⟨gMcr, ⟨by decide, rfl, ?_⟩⟩, gWrap, ⟨gP, ⟨by decide, rfl, ?_⟩⟩, trivial, trivial, trivial⟩
+  · intro e1 he1 e2 he2 hne hr
+    simp only [List.mem_cons, List.not_mem_nil, or_false] at he1 he2
+    rcases he1 with rfl | rfl <;> rcases he2 with rfl | rfl
+    · exact hne rfl
+    · have := reflTransGen_of_sink (fun x => g2.inv.out_sink ⟨.e, 1⟩ x) hr
+      exact absurd this (by decide)
+    · have := reflTransGen_of_sink (fun x => g2.inv.out_sink ⟨.p, 0⟩ x) hr
+      exact absurd this (by decide)
+    · exact hne rfl
+  · intro e1 he1 e2 he2 hne
+    simp at he1 he2; subst he1 he2; exact absurd rfl hne
+
+/-- the circuit reached -/
+def histCircuit : Dag := C12.run (Dag.init 2 1 1) hist
+
+/-- the measure-and-reset as wired: `insert_at` did not thread it on `c0` -/
+def mcrWired : Op := ⟨.mcr, [⟨.e, 1⟩, ⟨.p, 0⟩], [], ["two-qubit"], []⟩
+
+/-- a topological order of the reached circuit, with the wired operations: node 5 (`P e0`, inserted before the CNOT), 1, 3, and
+    the nodes 6, 7, 8 created by unwrapping node 4 -/
+def histSchedule : List (NodeId × Op) :=
+  [(.op 5, phE0), (.op 1, cnotEE), (.op 3, mcrWired), (.op 6, Op.oneQubit .phase ⟨.e, 1⟩),
+   (.op 7, Op.oneQubit .identity ⟨.e, 1⟩), (.op 8, Op.oneQubit .hadamard ⟨.e, 1⟩)]
+
+/-- it is a schedule of the reached circuit (kernel-evaluated checker, sound by `schedB_sound`) … -/
+theorem histSchedule_is_schedule : ∃ P, Good histCircuit P ∧ Sched histCircuit P histSchedule :=
+  schedB_sound' (C12.groupHyp_on_every_reachable_circuit 2 1 1 hist hist_ok).1 (by decide)
+
+/-- … so by `metrics_after_history` all metrics of the reached circuit equal the specifications on its operation list -/
+example : MetricsMeetSpec histCircuit (histSchedule.map (·.2)) := by
+  obtain ⟨P, g, hS⟩ := histSchedule_is_schedule
+  obtain ⟨P', g', _, hall⟩ := metrics_after_history 2 1 1 hist hist_ok
+  have : P' = P := by funext r; exact g'.inv.paths_unique g.inv r
+  subst this
+  exact hall _ hS
+
+/-- both sides are proper values (kernel-evaluated): one emitter–emitter CNOT, one measurement, four counted unitaries (the
+    identity dropped), emitter depths 2 and 4 (e1: CNOT, MCR, P, H), reset interval 3, effective depth 3, register depths
+    e: 2, 6  p: 3  c: 0 (the measurement does not touch the wire of `c0`) -/
+example : Metrics.cnotCount histCircuit = 1 ∧ Spec.cnotCount (histSchedule.map (·.2)) = 1 ∧
+    Metrics.measureCount histCircuit = 1 ∧ Spec.measureCount (histSchedule.map (·.2)) = 1 ∧
+    (Metrics.unitaryCount histCircuit).toOption = some 4 ∧ Spec.unitaryCount (histSchedule.map (·.2)) = 4 := by decide
+example : (Metrics.maxEmitDepth histCircuit).toOption = some 4 ∧ (Spec.maxEmitDepth 2 (histSchedule.map (·.2))).toOption = some 4 ∧
+    (Metrics.maxEmitResetDepth histCircuit).toOption = some 3 ∧
+    (Spec.maxEmitResetDepth 2 (histSchedule.map (·.2))).toOption = some 3 := by decide
+example : (Metrics.maxEmitEffDepth histCircuit).toOption = some 3 ∧
+    (Spec.maxEmitEffDepth 2 (histSchedule.map (·.2))).toOption = some 3 := by decide
+example : histCircuit.registerDepth.toOption = some ([2, 6], [3], [0]) ∧
+    (List.range 2).map (fun i => Spec.regDepth (histSchedule.map (·.2)) ⟨.e, i⟩) = [2, 6] ∧
+    Spec.regDepth (histSchedule.map (·.2)) ⟨.c, 0⟩ = 0 ∧ Spec.depth (histSchedule.map (·.2)) = 6 := by decide
 
 end Graphiq.C18
